@@ -83,8 +83,188 @@ impl Sources {
     }
 }
 
+/// every getter of the condition, by name, as text (floats as bit patterns)
+pub fn cond_snapshot(e: &Engine) -> Vec<(String, String)> {
+    let c = &e.condition;
+    let ns = e.voices.global_metadata().num_streams;
+    let mut v = vec![
+        ("sampling_frequency".to_string(), c.get_sampling_frequency().to_string()),
+        ("fperiod".to_string(), c.get_fperiod().to_string()),
+        ("volume".to_string(), hx(c.get_volume())),
+        ("alignment".to_string(), (c.get_phoneme_alignment_flag() as usize).to_string()),
+        ("speed".to_string(), hx(c.get_speed())),
+        ("alpha".to_string(), hx(c.get_alpha())),
+        ("beta".to_string(), hx(c.get_beta())),
+        ("half_tone".to_string(), hx(c.get_additional_half_tone())),
+    ];
+    for i in 0..ns {
+        v.push((format!("msd_threshold[{i}]"), hx(c.get_msd_threshold(i))));
+        v.push((format!("gv_weight[{i}]"), hx(c.get_gv_weight(i))));
+    }
+    v
+}
+
+/// report (as `shist` case lines) every setting of `names` (all when empty) that differs between two snapshots
+pub fn shist_report(before: &[(String, String)], after: &[(String, String)], names: &[&str], hist: &str) {
+    for ((n, b), (_, a)) in before.iter().zip(after.iter()) {
+        if b != a && (names.is_empty() || names.iter().any(|x| n.starts_with(x))) {
+            let mut line = String::from("shist");
+            push_s(&mut line, &esc(n));
+            push_s(&mut line, b);
+            push_s(&mut line, a);
+            push_s(&mut line, &esc(hist));
+            println!("{line}");
+        }
+    }
+}
+
+/// calls that must not change any setting: each one sets a setting to another in-range value and then back to what its
+/// getter returned (every setter except the volume's stores what it is given, so this is exact), or toggles the
+/// alignment flag twice. Returns the calls as text. (Seeded change C08h: switching alignment on reset the speed.)
+pub fn neutral_calls(rng: &mut Rng, e: &mut Engine) -> String {
+    let ns = e.voices.global_metadata().num_streams;
+    let mut hist = String::new();
+    let n = rng.range(2, 5);
+    for _ in 0..n {
+        let c = &mut e.condition;
+        match rng.below(9) {
+            0 => { let o = c.get_phoneme_alignment_flag(); c.set_phoneme_alignment_flag(!o); c.set_phoneme_alignment_flag(o); hist.push_str(&format!("alignment({})then({});", !o, o)); }
+            1 => { let o = c.get_speed(); let v = rng.log_uniform(0.25, 4.0); c.set_speed(v); c.set_speed(o); hist.push_str(&format!("speed({v})then({o});")); }
+            2 => { let o = c.get_beta(); let v = rng.uniform(0.0, 0.8); c.set_beta(v); c.set_beta(o); hist.push_str(&format!("beta({v})then({o});")); }
+            3 => { let o = c.get_alpha(); let v = rng.uniform(0.0, 0.8); c.set_alpha(v); c.set_alpha(o); hist.push_str(&format!("alpha({v})then({o});")); }
+            4 => { let o = c.get_additional_half_tone(); let v = rng.uniform(-24.0, 24.0); c.set_additional_half_tone(v); c.set_additional_half_tone(o); hist.push_str(&format!("half_tone({v})then({o});")); }
+            5 => { let o = c.get_fperiod(); let v = rng.range(1, 480); c.set_fperiod(v); c.set_fperiod(o); hist.push_str(&format!("fperiod({v})then({o});")); }
+            6 => { let o = c.get_sampling_frequency(); let v = *rng.pick(&[8000usize, 16000, 22050, 44100, 48000, 96000]); c.set_sampling_frequency(v); c.set_sampling_frequency(o); hist.push_str(&format!("sampling_frequency({v})then({o});")); }
+            7 => { let i = rng.below(ns); let o = c.get_msd_threshold(i); let v = rng.uniform(0.0, 1.0); c.set_msd_threshold(i, v); c.set_msd_threshold(i, o); hist.push_str(&format!("msd_threshold[{i}]({v})then({o});")); }
+            _ => { let i = rng.below(ns); let o = c.get_gv_weight(i); let v = rng.uniform(0.0, 2.0); c.set_gv_weight(i, v); c.set_gv_weight(i, o); hist.push_str(&format!("gv_weight[{i}]({v})then({o});")); }
+        }
+    }
+    hist
+}
+
+/// after the caller's settings are in place: neutral calls, and — every third time — a reload of the voice defaults into the
+/// condition in use, which must leave the caller's volume, speed, alignment flag, beta and half tone alone (seeded changes
+/// C14h, C15f, C16g); the header-defined settings the reload resets are put back afterwards.
+pub fn history_guard(rng: &mut Rng, e: &mut Engine) {
+    let before = cond_snapshot(e);
+    let mut hist = neutral_calls(rng, e);
+    shist_report(&before, &cond_snapshot(e), &[], &hist);
+    if rng.chance(0.34) {
+        let vs = e.voices.clone();
+        // interpolation weights are reset by a reload too: keep and restore them
+        let iw = e.condition.get_interporation_weight().clone();
+        if e.condition.load_model(&vs).is_ok() {
+            hist.push_str("load_model;");
+            let ns = vs.global_metadata().num_streams;
+            *e.condition.get_interporation_weight_mut() = iw;
+            let get = |k: &str| before.iter().find(|(n, _)| n == k).map(|(_, v)| v.clone()).unwrap();
+            let f = |s: String| f64::from_bits(u64::from_str_radix(&s, 16).unwrap());
+            e.condition.set_sampling_frequency(get("sampling_frequency").parse().unwrap());
+            e.condition.set_fperiod(get("fperiod").parse().unwrap());
+            e.condition.set_alpha(f(get("alpha")));
+            for i in 0..ns {
+                e.condition.set_msd_threshold(i, f(get(&format!("msd_threshold[{i}]"))));
+                e.condition.set_gv_weight(i, f(get(&format!("gv_weight[{i}]"))));
+            }
+            shist_report(&before, &cond_snapshot(e), &[], &hist);
+        }
+    }
+}
+
+/// Setting plumbing through the public routes to a configured engine (no synthesis; prints `shist` lines for what fails
+/// and one `shistok` line with the number of histories tried): (a) load, then set; (b) `Condition::default()`, set the
+/// caller's settings, `load_model`, `Engine::new`; (c) a configured engine reloading its voices; (d) clone — each followed by
+/// neutral calls. The caller-owned settings (volume, speed, alignment flag, beta, half tone) must read back what was set on
+/// every route, in particular the property's own setting `tag` is always given a non-default value.
+pub fn gen_plumb(seed: u64, tag: &str, thorough: bool) {
+    let mut rng = Rng::new(seed ^ 0x91b0_0000_u64);
+    let src = Sources::new();
+    let n = if thorough { 400 } else { 60 };
+    for k in 0..n {
+        let (mut e, _) = src.any_engine(&mut rng);
+        random_condition_inner(&mut rng, &mut e, true);
+        {
+            let ns = e.voices.global_metadata().num_streams;
+            let c = &mut e.condition;
+            match tag {
+                "C14" => c.set_beta(rng.uniform(0.05, 0.8)),
+                "C08" => c.set_speed(rng.log_uniform(0.25, 4.0)),
+                "C09" | "C17" => c.set_phoneme_alignment_flag(true),
+                "C15" => c.set_additional_half_tone(rng.uniform(-24.0, 24.0)),
+                "C16" => c.set_volume(rng.uniform(-20.0, 20.0)),
+                "C11" => { let i = rng.below(ns); c.set_msd_threshold(i, rng.uniform(0.0, 1.0)); }
+                "C12" => { let i = rng.below(ns); c.set_gv_weight(i, rng.uniform(0.0, 2.0)); }
+                "C06" | "C13" => c.set_alpha(rng.uniform(0.0, 0.8)),
+                _ => {}
+            }
+        }
+        let want = cond_snapshot(&e);
+        let owned = ["volume", "alignment", "speed", "beta", "half_tone"];
+        let f = |s: &str| f64::from_bits(u64::from_str_radix(s, 16).unwrap());
+        let get = |k: &str| want.iter().find(|(n, _)| n == k).map(|(_, v)| v.clone()).unwrap();
+        let set_owned = |c: &mut jbonsai::engine::Condition, order: usize| {
+            // the five caller-owned settings in one of several orders
+            let mut idx = [0usize, 1, 2, 3, 4];
+            idx.rotate_left(order % 5);
+            if order % 2 == 1 { idx.reverse(); }
+            for j in idx {
+                match j {
+                    0 => c.set_volume(f64::from_bits(u64::from_str_radix(&get("volume"), 16).unwrap())),
+                    1 => c.set_phoneme_alignment_flag(get("alignment") == "1"),
+                    2 => c.set_speed(f(&get("speed"))),
+                    3 => c.set_beta(f(&get("beta"))),
+                    _ => c.set_additional_half_tone(f(&get("half_tone"))),
+                }
+            }
+        };
+        match k % 4 {
+            0 => {
+                // (b) hand-built condition, settings first, voice defaults second
+                let mut c = jbonsai::engine::Condition::default();
+                set_owned(&mut c, k / 4);
+                if c.load_model(&e.voices).is_ok() {
+                    let e2 = Engine::new(e.voices.clone(), c);
+                    // the volume goes through dB -> linear -> dB once more on this route: compare it by value
+                    let got = cond_snapshot(&e2);
+                    let exact = ["alignment", "speed", "beta", "half_tone"];
+                    shist_report(&want, &got, &exact, "Condition::default();set caller settings;load_model;Engine::new");
+                    let (v0, v1) = (f(&get("volume")), e2.condition.get_volume());
+                    if !((v0 - v1).abs() <= 1e-9 * v0.abs().max(1.0)) {
+                        shist_report(&want, &got, &["volume"], "Condition::default();set_volume;load_model;Engine::new");
+                    }
+                }
+            }
+            1 => {
+                // (c) reload into the configured engine
+                let vs = e.voices.clone();
+                if e.condition.load_model(&vs).is_ok() {
+                    shist_report(&want, &cond_snapshot(&e), &owned, "configure;load_model (reload)");
+                }
+            }
+            2 => {
+                // (d) clone, then neutral calls on the clone: neither copy may change
+                let mut e2 = e.clone();
+                let h = neutral_calls(&mut rng, &mut e2);
+                shist_report(&want, &cond_snapshot(&e2), &[], &format!("clone;{h}"));
+                shist_report(&want, &cond_snapshot(&e), &[], &format!("clone;{h} (original)"));
+            }
+            _ => {
+                // (a) neutral calls on the configured engine
+                let h = neutral_calls(&mut rng, &mut e);
+                shist_report(&want, &cond_snapshot(&e), &[], &h);
+            }
+        }
+    }
+    println!("shistok {} {}", n, tag);
+}
+
 /// a random condition inside the operating envelope of C01
 pub fn random_condition(rng: &mut Rng, e: &mut Engine, small_fperiod: bool) {
+    random_condition_inner(rng, e, small_fperiod);
+    history_guard(rng, e);
+}
+
+fn random_condition_inner(rng: &mut Rng, e: &mut Engine, small_fperiod: bool) {
     let ns = e.voices.global_metadata().num_streams;
     let c = &mut e.condition;
     if small_fperiod {
@@ -732,10 +912,21 @@ pub fn gen_c12(seed: u64, thorough: bool) {
     for i in 0..n {
         // every fifth case: a perturbed copy whose GV-off contexts also cover a vowel, so that voiced frames are ineligible too
         let mut gv_off_patterns = gv_off_patterns.clone();
+        let mut two: Option<(Arc<jbonsai::model::Voice>, Arc<jbonsai::model::Voice>)> = None;
         let (e0, kind) = if i % 5 == 4 {
             gv_off_patterns.push(rng.pick(&["*-a+*", "*-o+*", "*-i+*"]).to_string());
             (engine_of(vec![Arc::new(with_gv_off(&perturb_voice(&bundled_voice, &mut rng), &gv_off_patterns))]).unwrap(), "perturbed-gvoff")
+        } else if i % 5 == 3 {
+            // two voices (bundled + perturbed copy) whose GV Gaussians differ, interpolation weights per quantity set through a
+            // history of setter calls (GV weights unlike the parameter weights, `set_gv` possibly before `set_parameter`); the
+            // GV means handed to the oracle are blended below from each voice's own values with the weights the caller meant
+            let v1 = Arc::new(bundled_voice.clone());
+            let v2 = Arc::new(perturb_voice(&bundled_voice, &mut rng));
+            two = Some((v1.clone(), v2.clone()));
+            (engine_of(vec![v1, v2]).unwrap(), "two-voices")
         } else if i % 2 == 0 { (src.bundled.clone(), "bundled") } else { (engine_of(vec![Arc::new(perturb_voice(&bundled_voice, &mut rng))]).unwrap(), "perturbed") };
+        let mut e0 = e0;
+        let want2 = if two.is_some() { Some(crate::c19::weight_history(&mut rng, &mut e0, 2, 3)) } else { None };
         let silence_only = i % 8 == 7;
         let lines: Vec<String> = if silence_only {
             src.corpus.iter().filter(|l| l.contains("-sil+") || l.contains("-pau+")).take(rng.range(1, 3)).cloned().collect()
@@ -749,7 +940,15 @@ pub fn gen_c12(seed: u64, thorough: bool) {
         let labs = Labels::load_from_strings(e0.condition.get_sampling_frequency(), e0.condition.get_fperiod(), &lines).expect("labels");
         let models = Models::new(labs.labels(), &e0.voices, e0.condition.get_interporation_weight());
         let ms = models.model_stream(stream);
-        let (gvp, gvsw) = ms.gv.clone().expect("bundled GV streams");
+        let (mut gvp, gvsw) = ms.gv.clone().expect("bundled GV streams");
+        if let (Some((v1, v2)), Some(w)) = (&two, &want2) {
+            let l0 = &labs.labels()[0];
+            let g1 = v1.stream_models[stream].gv_model.as_ref().unwrap().get_parameter(2, l0);
+            let g2 = v2.stream_models[stream].gv_model.as_ref().unwrap().get_parameter(2, l0);
+            for (m, g) in gvp.iter_mut().enumerate() {
+                g.0 = w.gv[stream][0] * g1.parameters[m].0 + w.gv[stream][1] * g2.parameters[m].0;
+            }
+        }
         let durs = impl_durations(&e0, &lines);
         // eligibility is decided from the voice file's GV_OFF_CONTEXT patterns and the label text,
         // not from the switch the library computed (which the driver checks against the patterns)
@@ -900,7 +1099,7 @@ pub fn envelope_ops(rng: &mut Rng, c: &mut jbonsai::engine::Condition, ns: usize
 }
 
 /// the whole library from the voice FILES: the driver reads the same files and runs the Lean model
-pub fn e2e_line(kind: &str, paths: &[String], e: &Engine, ops: &str, nops: usize, lines: &[String]) -> String {
+pub fn e2e_line(kind: &str, paths: &[String], e: &Engine, want: Option<&crate::c19::WantWeights>, ops: &str, nops: usize, lines: &[String]) -> String {
     let ns = e.voices.global_metadata().num_streams;
     let mut line = format!("e2e {}", paths.len());
     for p in paths { push_s(&mut line, p); }
@@ -908,9 +1107,14 @@ pub fn e2e_line(kind: &str, paths: &[String], e: &Engine, ops: &str, nops: usize
     push_u(&mut line, paths.len());
     push_u(&mut line, ns);
     let iw = e.condition.get_interporation_weight();
-    push_fs(&mut line, iw.get_duration());
-    for i in 0..ns { push_fs(&mut line, iw.get_parameter(i)); }
-    for i in 0..ns { push_fs(&mut line, iw.get_gv(i)); }
+    match want {
+        Some(w) => crate::c19::push_want(&mut line, w),
+        None => {
+            push_fs(&mut line, iw.get_duration());
+            for i in 0..ns { push_fs(&mut line, iw.get_parameter(i)); }
+            for i in 0..ns { push_fs(&mut line, iw.get_gv(i)); }
+        }
+    }
     push_s(&mut line, "nops");
     push_u(&mut line, nops);
     line.push_str(ops);
@@ -951,18 +1155,16 @@ pub fn gen_e2e(rng: &mut Rng, src: &Sources, tag: &str, n: usize) {
             other => { eprintln!("e2e: engine does not load: {:?}", other.map(|r| r.map(|_| ()).map_err(|x| format!("{x}")))); continue; }
         };
         let ns = e.voices.global_metadata().num_streams;
+        let mut want: Option<crate::c19::WantWeights> = None;
         if paths.len() > 1 {
-            // random valid weights per quantity — weights are part of the case
+            // random valid weights per quantity, through a setter history — the weights the caller meant are part of the case
             let nv = paths.len();
-            let mut rw = |rng: &mut Rng| -> Vec<f64> { let mut w: Vec<f64> = (0..nv).map(|_| rng.unit()).collect(); let s: f64 = w.iter().sum(); for x in &mut w { *x /= s; } let s2: f64 = w.iter().sum(); if (s2 - 1.0).abs() > f64::EPSILON { w[nv - 1] += 1.0 - s2; } w };
-            let iw = e.condition.get_interporation_weight_mut();
-            let _ = iw.set_duration(&rw(rng));
-            for s in 0..ns { let _ = iw.set_parameter(s, &rw(rng)); let _ = iw.set_gv(s, &rw(rng)); }
+            want = Some(crate::c19::weight_history(rng, &mut e, nv, ns));
         }
         let (ops, nops) = envelope_ops(rng, &mut e.condition, ns);
         let nlab = if kind == "bundled" { rng.range(1, 2) } else { rng.range(1, 5) };
         let recombine = rng.chance(0.5);
         let lines = src.labels(rng, nlab, recombine);
-        println!("{}", e2e_line(kind, &paths, &e, &ops, nops, &lines));
+        println!("{}", e2e_line(kind, &paths, &e, want.as_ref(), &ops, nops, &lines));
     }
 }
